@@ -68,8 +68,11 @@ for line in sys.stdin:
             d = tok.dependency(cmd["count"])
             d.target = Target(j)
             d.loop = InlineLoop()
-            tok.dependents.add(d)
+            # (announced before it is done: here a notification is handled by the thread that gives it -- InlineLoop -- so the observer
+            #  thread can re-check the dependency between the registration and an event logged after it; in the scheduler both
+            #  are inside one callback of the loop thread)
             _verif.emit("sched.dep.add", job=j, origin="CounterToken", proc=me)
+            tok.dependents.add(d)
             deps[j] = d
             d.check()
             _verif.emit("sched.dep.check", job=j, origin="CounterToken", status=d.currentstatus.name, proc=me)
